@@ -94,7 +94,33 @@ fn alphabet_for(prop: &str) -> Vec<Op> {
 }
 
 /// Recipe-built non-initial states (operation lists executed before the enumerated suffix).
+/// Seed states of a bare tree fed by ingests (subject "tree").
+fn tree_seeds() -> Vec<(&'static str, Vec<Op>)> {
+    let ing = |n: &str| Op::parse(&format!("ing:{n}"));
+    let mut v: Vec<(&'static str, Vec<Op>)> = vec![("empty", vec![])];
+    // two stacked files at the two oldest levels; one more overlapping file in level 0 makes the
+    // merge of all three (a top-level GC) the next compaction
+    v.push((
+        "tree-l14-over-l15",
+        vec![ing("a+b"), Op::CompactAll, ing("-a+ab-b"), Op::CompactAll],
+    ));
+    v.push((
+        "tree-l14-over-l15+l0",
+        vec![ing("a+b"), Op::CompactAll, ing("-a+ab-b"), Op::CompactAll, ing("a+b")],
+    ));
+    // a lower-level file whose timestamps straddle an overlapping upper-level file
+    let interleaved = vec![ing("a+b"), ing("AB"), ing("AB"), ing("a"), Op::CompactAll];
+    v.push(("tree-time-interleaved", interleaved.clone()));
+    let mut reopened = interleaved;
+    reopened.push(Op::Reopen);
+    v.push(("tree-time-interleaved-reopened", reopened));
+    v
+}
+
 fn seeds(prop: &str) -> Vec<(&'static str, Vec<Op>)> {
+    if TREE_SUBJECT.load(std::sync::atomic::Ordering::Relaxed) {
+        return tree_seeds();
+    }
     let mut v: Vec<(&'static str, Vec<Op>)> = vec![("empty", vec![])];
     if prop == "C20" {
         v.push((
@@ -142,6 +168,27 @@ fn seeds(prop: &str) -> Vec<(&'static str, Vec<Op>)> {
         "reopen-built-boundary-sharing",
         vec![Op::Put(1), Op::Put(2), Op::Reopen, Op::Put(0), Op::Put(1), Op::Reopen],
     ));
+    // a lower-level file whose timestamp range straddles that of an overlapping upper-level file
+    // ([ab] sank past nothing, [a] sank past [ab] by trivial moves and was merged with older
+    // data): recovery cannot order the two from their metadata
+    let interleaved = vec![
+        Op::Batch(0),
+        Op::Flush,
+        Op::Compact,
+        Op::PutHuge(1),
+        Op::Flush,
+        Op::Compact,
+        Op::PutHuge(1),
+        Op::Flush,
+        Op::Compact,
+        Op::Put(0),
+        Op::Flush,
+        Op::CompactAll,
+    ];
+    v.push(("time-interleaved-overlapping-files", interleaved.clone()));
+    let mut reopened = interleaved;
+    reopened.push(Op::Reopen);
+    v.push(("time-interleaved-overlapping-files-reopened", reopened));
     if prop == "C05" || prop == "C08" || prop == "C04" {
         // every entry in a file of its own: an old single-key file at the oldest level, and a
         // newer file around it in level 0 (the next compaction re-creates the old file)
@@ -245,6 +292,26 @@ fn seeds(prop: &str) -> Vec<(&'static str, Vec<Op>)> {
         ));
     }
     v
+}
+
+static TREE_SUBJECT: std::sync::atomic::AtomicBool = std::sync::atomic::AtomicBool::new(false);
+static DEADLINE: std::sync::OnceLock<std::time::Instant> = std::sync::OnceLock::new();
+static EXPIRED: std::sync::atomic::AtomicBool = std::sync::atomic::AtomicBool::new(false);
+
+/// The wall budget (if any) is over: stop descending.  The depth being explored is then reported
+/// as abandoned, never as covered.
+fn expired() -> bool {
+    use std::sync::atomic::Ordering::Relaxed;
+    if EXPIRED.load(Relaxed) {
+        return true;
+    }
+    match DEADLINE.get() {
+        Some(d) if std::time::Instant::now() >= *d => {
+            EXPIRED.store(true, Relaxed);
+            true
+        }
+        _ => false,
+    }
 }
 
 static GC_STEPS: std::sync::atomic::AtomicU64 = std::sync::atomic::AtomicU64::new(0);
@@ -486,6 +553,9 @@ fn explore(
     rep: &mut Report,
     scan_stats: &mut ScanStats,
 ) {
+    if expired() {
+        return;
+    }
     let out = run(plan, &item.cfg, &item.seed, ops, scratch, scan_stats, true);
     rep.evaluations += 1;
     rep.transitions += (item.seed.len() + ops.len()) as u64;
@@ -644,6 +714,20 @@ fn main() {
             })
         })
         .collect();
+    // --subject tree: a bare LsmTree fed by external ingests (alphabet ing:*, C, C*, R, V)
+    if args.get("subject") == Some("tree") {
+        TREE_SUBJECT.store(true, std::sync::atomic::Ordering::Relaxed);
+    }
+    let cfgs: Vec<Cfg> = cfgs
+        .into_iter()
+        .map(|mut c| {
+            if args.get("subject") == Some("tree") {
+                c.name = format!("{}+tree", c.name);
+                c.args.push(("verif-subject".to_string(), "tree".to_string()));
+            }
+            c
+        })
+        .collect();
     let seed_depth = args.usize("seed-depth", depth.saturating_sub(1));
     let only_seed = args.get("only-seed");
     // work items: (cfg, seed, first op) -- the first level of the tree is the partition
@@ -684,8 +768,26 @@ fn main() {
     }
     let job = format!("seq_store-{}", prop);
     let mk = || Report::new(&job, &prop);
-    let plan_ref = &plan;
-    let total = vcore::parallel(items, args.threads(), mk, |item, rep| {
+    // --budget SECS [--min-depth M]: iterative deepening M, M+1, ..., depth inside a wall budget.
+    // Each depth is a complete exploration of its own; when the budget runs out the depth in
+    // progress is abandoned and reported as a cap, and the verdict is for the last completed depth.
+    let budget = args.get("budget").map(|b| b.parse::<u64>().expect("--budget SECS"));
+    let min_depth = args.usize("min-depth", depth).min(depth);
+    let depths: Vec<usize> = if budget.is_some() { (min_depth..=depth).collect() } else { vec![depth] };
+    if let Some(b) = budget {
+        let _ = DEADLINE.set(std::time::Instant::now() + std::time::Duration::from_secs(b));
+    }
+    let items = std::sync::Arc::new(items);
+    let mut completed: Option<(usize, Report)> = None;
+    let mut abandoned: Option<(usize, Report)> = None;
+    for d in depths {
+    let mut plan_d = plan.clone();
+    plan_d.depth = d;
+    let seed_depth = if args.get("seed-depth").is_some() { seed_depth } else { d.saturating_sub(1) };
+    let plan_ref = &plan_d;
+    let items_d: Vec<&Item> = items.iter().collect();
+    let total = vcore::parallel(items_d, args.threads(), mk, |item, rep| {
+        let item: &Item = item;
         let scratch = Scratch::new("seq");
         let mut scan_stats = ScanStats {
             programs: 0,
@@ -720,7 +822,35 @@ fn main() {
         rep.count("cursor_calls", scan_stats.calls);
         rep.outcomes.extend(scan_stats.outcomes);
     });
-    let mut total = total;
+    if expired() {
+        abandoned = Some((d, total));
+        break;
+    }
+    completed = Some((d, total));
+    }
+    let completed_depth = completed.as_ref().map(|c| c.0);
+    let mut total = match completed {
+        Some((_, r)) => r,
+        None => mk(),
+    };
+    if let Some((d, r)) = abandoned {
+        let what = match completed_depth {
+            Some(c) => format!(
+                "wall budget of {} s ran out {} histories into depth {d}; every history <= {c} was completed (the counts are those of depth {c}; violations found in the abandoned depth are kept)",
+                budget.unwrap_or(0), r.evaluations
+            ),
+            None => format!(
+                "wall budget of {} s ran out {} histories into depth {d}, the first depth tried: nothing is completely covered",
+                budget.unwrap_or(0), r.evaluations
+            ),
+        };
+        if completed_depth.is_none() || !r.violations.is_empty() {
+            total.merge(r);
+        }
+        total.cap(&what);
+    }
+    let depth = completed_depth.unwrap_or(depth);
+    let seed_depth = if args.get("seed-depth").is_some() { seed_depth } else { depth.saturating_sub(1) };
     {
         use std::sync::atomic::Ordering::Relaxed;
         if prop == "C05" {
@@ -731,6 +861,8 @@ fn main() {
     }
     total.bound = json!({
         "depth": depth,
+        "depth_requested": plan.depth,
+        "wall_budget_s": budget,
         "seed_depth": seed_depth,
         "alphabet": plan.alphabet.iter().map(|o| o.name()).collect::<Vec<_>>(),
         "configurations": cfg_names,
